@@ -29,19 +29,21 @@ def languageEnd (v strEnd : Str) (languageStart : Nat) : Nat :=
   | some pos => languageStart + pos
   | none => v.length
 
+/-- `match_start != 0 && !value_str.as_bytes()[match_start - 1].is_ascii_whitespace()` (the `continue`
+condition); `none` = the index panicked. -/
+def startGuard (v : Str) (matchStart : Nat) : Option Bool :=
+  if matchStart ≠ 0 then
+    match v[matchStart - 1]? with
+    | none => none
+    | some b => some (!isAsciiWs b)
+  else some false
+
 /-- The `for (match_start, _) in value_str.match_indices("language-")` loop; `none` = the loop ended
 without a `break`. -/
 def langLoop (v : Str) : List Nat → Out (Option (Str × Bool))
   | [] => .ok none
   | matchStart :: rest =>
-    -- `if match_start != 0 && !value_str.as_bytes()[match_start - 1].is_ascii_whitespace() { continue }`
-    let skip : Option Bool :=
-      if matchStart ≠ 0 then
-        match v[matchStart - 1]? with
-        | none => none
-        | some b => some (!isAsciiWs b)
-      else some false
-    match skip with
+    match startGuard v matchStart with
     | none => .panic
     | some true => langLoop v rest
     | some false =>
